@@ -57,3 +57,14 @@ Print Assumptions C10_visit_complete.
 Theorem C10_small_channel_stuck : stmt_visit_small_channel_stuck.
 Proof. exact visit_small_channel_stuck. Qed.
 Print Assumptions C10_small_channel_stuck.
+
+(** ON A MOVING STORE: a visit of an OPEN snapshot (any pivots, any refresh rate) with arbitrary
+    operations of other goroutines before it and between any two deliveries — Puts, Deletes, new
+    snapshots, closing of other snapshots, GC passes and collection that physically removes versions the
+    snapshot cannot see: if the visit ran to its end and the snapshot is still open, the concatenation
+    of the shards IS the snapshot's item list (each item once, ascending, shard after shard), and no
+    version it can see was ever collected. *)
+From NV Require Import Base.Bytes Mvcc.Store Mvcc.Ops Mvcc.InvDefs Mvcc.RefineStmt Mvcc.Live Mvcc.Delta Mvcc.VisitLiveStmts Mvcc.VisitLiveProofs.
+Theorem C10_visitor_live : forall kcmp, cmp_laws kcmp -> stmt_visitor_live kcmp.
+Proof. exact visitor_live_exact. Qed.
+Print Assumptions C10_visitor_live.
